@@ -90,8 +90,14 @@ fn eval(acc: Acc, date: u32, time: u32) -> Result<Option<(i64, Option<DateTime<U
             b[12..16].copy_from_slice(&date.to_be_bytes());
             b[16..20].copy_from_slice(&time.to_be_bytes());
             b[20..24].copy_from_slice(b"KDMX");
-            let h = nexrad_data::volume::Header::deserialize(&mut &b[..])
-                .map_err(|e| format!("volume::Header::deserialize: {e:?}"))?;
+            let h = if (date ^ time) % 4 == 0 {
+                // in pieces, as from a socket or a chained reader
+                let mut rd = mon::DribbleReader::new(Cursor::new(&b[..]), (date as u64) << 32 | time as u64);
+                nexrad_data::volume::Header::deserialize(&mut rd)
+            } else {
+                nexrad_data::volume::Header::deserialize(&mut &b[..])
+            }
+            .map_err(|e| format!("volume::Header::deserialize: {e:?}"))?;
             Ok(h.date_time().map(|dt| (dt.timestamp_millis(), Some(dt))))
         }
         Acc::BypassMap | Acc::ClutterMapStatus => {
